@@ -1083,6 +1083,16 @@ structure CkState where
   targets : List Nat := []    -- branchTargets
   deriving Repr
 
+/-- checkSwitch, one offset: the target is within the program and, when it lies before the end of the instruction, an
+    instruction start already seen -/
+def offStep (plen e : Nat) (acc : Option CkState) (o : Int) : Option CkState :=
+  match acc with
+  | none => none
+  | some s =>
+    if (e : Int) + o < 0 ∨ (plen : Int) < (e : Int) + o then none
+    else if ((e : Int) + o).toNat < e ∧ ¬ s.starts.contains ((e : Int) + o).toNat then none
+    else some { s with targets := ((e : Int) + o).toNat :: s.targets }
+
 /-- the branch rules of checkBranch / checkSwitch / checkBranchVarint for one decoded instruction at `pc` ending at `e` -/
 def checkTargets (v bb plen pc e : Nat) (st : CkState) : List RImm → Option CkState
   | [] => some st
@@ -1094,15 +1104,7 @@ def checkTargets (v bb plen pc e : Nat) (st : CkState) : List RImm → Option Ck
     else if t.toNat < e ∧ ¬ st.starts.contains t.toNat then none
     else checkTargets v bb plen pc e { st with targets := t.toNat :: st.targets } rest
   | .offs os :: rest =>
-    let go := os.foldl (fun (acc : Option CkState) o =>
-      match acc with
-      | none => none
-      | some s =>
-        let t := (e : Int) + o
-        if t < 0 ∨ (plen : Int) < t then none
-        else if t.toNat < e ∧ ¬ s.starts.contains t.toNat then none
-        else some { s with targets := t.toNat :: s.targets }) (some st)
-    match go with
+    match os.foldl (offStep plen e) (some st) with
     | none => none
     | some s => checkTargets v bb plen pc e s rest
   | .voff o _ :: rest =>
